@@ -1,5 +1,6 @@
 \* behaviour export: single-cut table of the 13-event reference stream (ids spelled as the SDK server spells them)
-\* (tools/checks/c09.py builds its configurations from the same template; this file is the thorough-tier one, for manual runs:
+\* (tools/checks/c09.py builds its configurations from the same template - the Fix* switches of the configurations that model
+\*  the real code come from its REPAIRED table; this file is the thorough-tier one, for manual runs:
 \*  java -cp $TLA_CP tlc2.TLC -config StreamCli_gen1L.cfg StreamCliMC)
 SPECIFICATION Spec
 CONSTANTS
@@ -12,7 +13,7 @@ CONSTANTS
   ClassSet = {"bnd", "field", "name", "id", "idfull", "data", "datafull"}
   AnswerSet = {"ok"}
   FixScanner = FALSE
-  FixCursor = FALSE
-  Fix5xx = FALSE
+  FixCursor = TRUE
+  Fix5xx = TRUE
 INVARIANTS Export
 CHECK_DEADLOCK FALSE
